@@ -17,6 +17,16 @@ def contracts():
         loops={"for x in node.children": {
             "invariant": ["children_well_formed(new_children)", "ends_with_node_or_empty(new_children)"]}},
         asserts={"node.children = new_children": ["children_well_formed(new_children)"]}))
+    # _parser_push: pending strings of the current node are finalized first; the new node becomes the last child of
+    # the node that was on top and the new top of the stack, and is the node returned -- on every path (one per
+    # node class)
+    cs.append(Contract(
+        target="parser:_parser_push", prop="C01", mode="frame", params={"ctx": "ctx", "kind": "opq"},
+        track_log=True, log_names=["_parser_merge_str_children", "append"],
+        asserts={"prev = ctx.parser_stack[-1]": ["logged('_parser_merge_str_children') == 1", "logged('append') == 0"]},
+        ensures=["logged('append') == 2", "logged('_parser_merge_str_children') == 1",
+                 "same_object(call_arg('append', 0, 0), result)", "same_object(call_arg('append', 1, 0), result)",
+                 "same_object(result, node)"]))
     return cs
 
 
